@@ -164,6 +164,8 @@ Mut(T, v, b) ==
               \cup { ObjOf(Append(ks, k), Append(s, e)) : s \in S1, k \in ExtraKeys, e \in ExtraVals }             \* an undeclared member
               \cup { ObjOf(Append(ks, ms[i].n), Append(s, e)) : s \in S1, i \in nw, e \in Pool }                   \* an omitted optional member supplied
       [] T[1] \in {"int", "flt"} -> NumFaults(T) \cup {ToJ(T, v)}
+      [] T[1] = "bits" -> LET j == ToJ(T, v) IN     \* the base16 text one byte short, and empty
+                          {j, JStr(<<>>)} \cup (IF j[1] = "str" /\ Len(j[2]) >= 2 THEN {JStr(SubSeq(j[2], 1, Len(j[2]) - 2))} ELSE {})
       [] OTHER -> {ToJ(T, v)}
 
 (* ---- known deviations of the pinned implementation (trigger predicates; see notes/C17.md) ---- *)
